@@ -75,10 +75,10 @@ def Handshake.isValid (h : Handshake) : Except PyErr Bool :=
 def validateExtra : Headers → Except PyErr Headers
   | [] => .ok []
   | x :: rest =>
-    match validatePartBytes x.1 with
+    match validateNameBytes x.1 with
     | .error e => .error e
     | .ok n =>
-      if n == "sec-websocket-protocol".b || nameRefused n then .error .exception
+      if n == "sec-websocket-protocol".b then .error .exception
       else do
         let v ← validatePartBytes x.2
         let r ← validateExtra rest
